@@ -14,7 +14,7 @@ import ast
 from .core import (z3, PyVal, A, C, VABSENT, StringSort, IntSort, BoolSort, SeqPV, mk_bool, mk_str, mk_int, mk_list,
                    simp, is_tag)
 from .values import (Unsupported, PathKilled, PyRaise, SVal, HObj, HDict, HList, HSet, DictView, Foreign)
-from .summarize import summarize, Outcome, disj
+from .summarize import summarize, Outcome, disj, ident
 from . import builtins_impl as B
 from .ops import is_plain, boolval
 
@@ -216,6 +216,22 @@ def _poison_after(s, frame):
             frame.env.vars[n.id] = Poison()
 
 
+def _env_ident(frame):
+    """Identity of the local environment a summarized region can read (the innermost function frame)."""
+    items = []
+    e = frame.env
+    depth = 0
+    while e is not None and depth < 3:
+        for k, v in e.vars.items():
+            try:
+                items.append((k, ident(v)))
+            except Exception:
+                items.append((k, id(v)))
+        e = e.parent
+        depth += 1
+    return tuple(items)
+
+
 def _alt_labels(alts):
     out = []
     n = 0
@@ -236,7 +252,7 @@ def foreach_concrete(interp, s, frame, items):
     ctx = interp.ctx
     per = []
     for x in items:
-        outs = summarize(interp, _body_thunk(interp, s, frame, x), site=(id(s), 'for', len(per)))
+        outs = summarize(interp, _body_thunk(interp, s, frame, x), site=(id(s), 'for', len(per), ident(x), _env_ident(frame)))
         per.append(outs)
     normal_conds = [disj([o.cond() for o in outs if o.kind in ("normal", "continue")]) for outs in per]
     alts = [("normal", z3.And(*normal_conds) if normal_conds else z3.BoolVal(True), None)]
@@ -290,7 +306,7 @@ def subst_value(interp, v, bv, star):
 def foreach_generic(interp, s, frame, g):
     from .interp import _Return
     ctx = interp.ctx
-    outs = summarize(interp, _body_thunk(interp, s, frame, g.value, g.member), bound=[g.bv], site=(id(s), 'forg'))
+    outs = summarize(interp, _body_thunk(interp, s, frame, g.value, g.member), bound=[g.bv], site=(id(s), 'forg', ident(g.value), _env_ident(frame)))
     normal = disj([o.cond() for o in outs if o.kind in ("normal", "continue")])
     allnormal = forall([g.bv], z3.Implies(g.member, normal), patterns=[g.pattern] if g.pattern is not None else [])
     star = ctx.fresh("elem", g.bv.sort())
@@ -408,7 +424,7 @@ def eval_comprehension(interp, node, frame, kind):
     if g is None:
         raise Unsupported("comprehension over %r" % (it,))
     ctx = interp.ctx
-    outs = summarize(interp, _comp_thunk(interp, node, frame, g.value, g.member, elt_fn), bound=[g.bv], site=(id(node), 'comp'))
+    outs = summarize(interp, _comp_thunk(interp, node, frame, g.value, g.member, elt_fn), bound=[g.bv], site=(id(node), 'comp', ident(g.value), _env_ident(frame)))
     _abrupt_alternatives(interp, outs, g)
     if kind == "set":
         # only `{x for x in coll if cond}` with x the element itself (a predicate subset)
@@ -506,7 +522,7 @@ def quant_over(interp, v, is_all):
         g = generic_element(interp, it)
         if g is None:
             raise Unsupported("all/any over %r" % (it,))
-        outs = summarize(interp, _comp_thunk(interp, node, frame, g.value, g.member, elt_fn), bound=[g.bv], site=(id(node), 'quant'))
+        outs = summarize(interp, _comp_thunk(interp, node, frame, g.value, g.member, elt_fn), bound=[g.bv], site=(id(node), 'quant', ident(g.value), _env_ident(frame)))
         # an element that raises before the verdict is reached: over-approximated by "some element raises"
         _abrupt_alternatives(interp, outs, g)
         sat_parts = []
